@@ -203,40 +203,63 @@ Definition enc_stereo (o : eopts) (L : oracle) (bps : N) (l r : list Z) : N * li
 
 (* header codes chosen by the writer: TryFrom<u16> for BlockSize, TryFrom<u32> for SampleRate,
    From<SignedBitCount<32>> for BitsPerSample (stream.rs:537-560, 779-802, 1136-1149) *)
-Definition code_of_bs (n : N) : N :=
-  match n with
-  | 192 => 1 | 576 => 2 | 1152 => 3 | 2304 => 4 | 4608 => 5
-  | 256 => 8 | 512 => 9 | 1024 => 10 | 2048 => 11 | 4096 => 12 | 8192 => 13 | 16384 => 14 | 32768 => 15
-  | _ => if n <=? 256 then 6 else 7
+Fixpoint code_lookup (v : N) (table : list (N * N)) : option N :=     (* (code, value) pairs *)
+  match table with
+  | [] => None
+  | (c, x) :: r => if v =? x then Some c else code_lookup v r
   end.
+Definition bs_codes : list (N * N) :=
+  [(1, 192); (2, 576); (3, 1152); (4, 2304); (5, 4608); (8, 256); (9, 512); (10, 1024); (11, 2048);
+   (12, 4096); (13, 8192); (14, 16384); (15, 32768)].
+Definition rate_codes : list (N * N) :=
+  [(1, 88200); (2, 176400); (3, 192000); (4, 8000); (5, 16000); (6, 22050); (7, 24000); (8, 32000);
+   (9, 44100); (10, 48000); (11, 96000)].
+Definition bps_codes : list (N * N) := [(1, 8); (2, 12); (4, 16); (5, 20); (6, 24); (7, 32)].
+
+Definition code_of_bs (n : N) : N :=
+  match code_lookup n bs_codes with Some c => c | None => if n <=? 256 then 6 else 7 end.
 Definition code_of_rate (r : N) : option N :=
-  match r with
-  | 88200 => Some 1 | 176400 => Some 2 | 192000 => Some 3 | 8000 => Some 4 | 16000 => Some 5
-  | 22050 => Some 6 | 24000 => Some 7 | 32000 => Some 8 | 44100 => Some 9 | 48000 => Some 10 | 96000 => Some 11
-  | _ => if (r mod 1000 =? 0) && (r / 1000 <? 255) then Some 12
-         else if (r mod 10 =? 0) && (r / 10 <? 65535) then Some 14
-         else if r <? 65535 then Some 13
-         else if r <? 2 ^ 20 then Some 0 else None
+  match code_lookup r rate_codes with
+  | Some c => Some c
+  | None => if (r mod 1000 =? 0) && (r / 1000 <? 255) then Some 12
+            else if (r mod 10 =? 0) && (r / 10 <? 65535) then Some 14
+            else if r <? 65535 then Some 13
+            else if r <? 2 ^ 20 then Some 0 else None
   end.
 Definition code_of_bps (b : N) : N :=
-  match b with 8 => 1 | 12 => 2 | 16 => 4 | 20 => 5 | 24 => 6 | 32 => 7 | _ => 0 end.
+  match code_lookup b bps_codes with Some c => c | None => 0 end.
+
+(* the channel assignment and the subframes of one block *)
+Definition enc_subs (o : eopts) (L : oracle) (bps : N) (chans : list (list Z)) : N * list subframe :=
+  match chans with
+  | [l; r] => enc_stereo o L bps l r
+  | _ => (N.of_nat (length chans) - 1, map (enc_sub o L bps) chans)
+  end.
 
 (* encode_frame: one block of `chans` (1..8 channels of equal, non-zero length) *)
 Definition enc_frame (o : eopts) (L : oracle) (rate bps number : N) (chans : list (list Z)) : option frame :=
   match code_of_rate rate, chans with
   | None, _ | _, [] => None
   | Some rc, c0 :: _ =>
-      let '(a, subs) :=
-        match chans with
-        | [l; r] => enc_stereo o L bps l r
-        | _ => (N.of_nat (length chans) - 1, map (enc_sub o L bps) chans)
-        end in
+      let res := enc_subs o L bps chans in
       let n := N.of_nat (length c0) in
       Some {| f_hdr := {| h_variable := false; h_bs_code := code_of_bs n; h_bs := n;
-                          h_rate_code := rc; h_rate := rate; h_assign := a;
+                          h_rate_code := rc; h_rate := rate; h_assign := fst res;
                           h_bps_code := code_of_bps bps; h_bps := bps; h_number := number |};
-              f_subs := subs |}
+              f_subs := snd res |}
   end.
+
+Definition block_len (chans : list (list Z)) : N := match chans with c :: _ => N.of_nat (length c) | [] => 0 end.
 
 Definition enc_frame_bytes (o : eopts) (L : oracle) (rate bps number : N) (chans : list (list Z)) : option (list N) :=
   match enc_frame o L rate bps number chans with Some f => write_frame f | None => None end.
+
+(* Encoder::encode over the blocks of a stream: fixed block size, frame numbers k, k+1, ... *)
+Fixpoint enc_blocks (o : eopts) (L : oracle) (rate bps k : N) (blocks : list (list (list Z))) : option (list N) :=
+  match blocks with
+  | [] => Some []
+  | b :: rest => match enc_frame_bytes o L rate bps k b, enc_blocks o L rate bps (k + 1) rest with
+                 | Some x, Some y => Some (x ++ y)
+                 | _, _ => None
+                 end
+  end.
